@@ -194,7 +194,7 @@ def findings(case, alone):
         if ref is None: continue                          # the alone-run itself is broken: reported by the single-triple case
         if not got:
             if par: continue                              # not demanded: rows of a triple one of whose params tasks / whose clean-up failed
-            out.append(('non-failing triple has no rows', share(t), f'triple {t} has no rows; alone it yields {len(ref)} rows'))
+            out.append(('non-failing triple has no rows', '', f'triple {t} has no rows; alone it yields {len(ref)} rows'))
         elif not same_rows(got, ref):
             i = next((i for i, (x, y) in enumerate(zip(got, ref)) if not same_rows([x], [y])), min(len(got), len(ref)))
             out.append(('rows differ from the triple run alone', share(t),
@@ -244,9 +244,11 @@ class C03(Check):
             'explicit tuple list (lists <=2 also with quiet=True); every cross-product constructor call over ordered non-empty selections (lists or '
             'single objects) of the same components; (environment, learner) 2-tuple lists; each with bare environments and with both environments '
             'piped into one Chunk object so that all their tasks are processed in one chunk (thorough also: one Chunk per environment, and the shared '
-            'chunk split by maxtasksperchunk=2); each x {no fault} + every distinct single fault designated on one of its triples (raise at '
-            'env.params, item k of env.read, learner.params, k-th predict, k-th learn, evaluator.params, evaluator.evaluate; k in 0..1, thorough '
-            '0..2); thorough adds every unordered pair of distinct faults for lists of length <=3 (bare and shared chunk). '
+            'chunk split by maxtasksperchunk=2); each with plain learners and with learners that have a finish() clean-up hook (succeeds after a '
+            'complete evaluation, raises on a learner whose evaluation was cut short); each x {no fault} + every distinct single fault designated '
+            'on one of its triples (raise at env.params, item k of env.read, learner.params, k-th predict, k-th learn, evaluator.params, '
+            'evaluator.evaluate, learner.finish; k in 0..1, thorough 0..2); thorough adds every unordered pair of distinct faults for lists of '
+            'length <=3 (bare + plain learners, shared chunk + finish hook). '
             'A case is non-trivial when it has >=2 triples and (a learner object is listed in several triples or a fault position is '
             'reached inside an evaluation)')
     ASSUMPTIONS = [
@@ -262,6 +264,9 @@ class C03(Check):
         'an exception at the first item of env.read is swallowed by the environment-parameter task (documented peek); only the evaluation tasks must report it',
         'one log entry carrying the exception text is demanded per failing evaluation; with two faults on one triple either text is accepted (the first exception pre-empts the second)',
         'a learner listed in exactly ONE triple may be trained in place (the statement only speaks of learners listed several times)',
+        'clean-up hook: whether, when and how often coba calls finish() on its copies is NOT constrained (calls are counted in the outcome signature only); '
+        'demanded: finish() is never called on the caller\'s object of a learner listed in several triples; an exception raised by a finish() call that coba made '
+        'has a log entry; it may remove the rows of the triple that copy belonged to (if rows are there they must be the alone-run rows) and of no other triple',
         'the learners publish what they were taught through CobaContext.learning_info (coba\'s documented channel for per-interaction learner output); '
         'the scripted evaluator neither reads nor clears it',
         'lists with the same triple twice, learners with custom __eq__/__hash__, stateful evaluators / environments, cached environments (Chunk with cache=True) are outside the alphabet',
@@ -277,7 +282,7 @@ class C03(Check):
                   'Experiment.run in-process and compared triple by triple with the triple run alone.')
     LEVEL_NOTE = ('small-scope: <=4 triples (8 in cross-product form), environments of 2-3 interactions, faults at call positions 0..2, at most two faults; '
                   'in-process configuration only (multi-process configurations are added through the SCHED engine by the orchestrator)')
-    MIN_NONTRIVIAL = {'quick': 20000, 'thorough': 400000}
+    MIN_NONTRIVIAL = {'quick': 40000, 'thorough': 800000}
     CASE_TIMEOUT = 60
 
     # ---------------------------------------------------------------- enumeration
